@@ -284,7 +284,10 @@ namespace options
             }
         }
 
-        s << "usage: " << app_name_;
+        // the synopsis is laid out in a stream of its own: format_padded() takes the stream
+        // position for the current column, which only holds for a fresh, seekable stream
+        std::stringstream synopsis;
+        synopsis << "usage: " << app_name_;
 
         std::stringstream usage;
 
@@ -324,10 +327,10 @@ namespace options
         {
             out = out.substr(1);
 
-            nitro::io::terminal::format_padded(s, out, 8 + app_name_.size(), 80);
+            nitro::io::terminal::format_padded(synopsis, out, 8 + app_name_.size(), 80);
         }
 
-        s << std::endl << std::endl;
+        s << synopsis.str() << std::endl << std::endl;
 
         if (!about_.empty())
         {
